@@ -52,7 +52,16 @@ func lineGrammar(mode string, stdout string) (bad string, idx int) {
 		case "-i":
 			ok = diagLineRe.MatchString(l) || hintLineRe.MatchString(l)
 		case "--suggest", "--hover":
-			ok = diagLineRe.MatchString(l) || (pctLineRe.MatchString(l) && strings.Count(l, ":::") == 2)
+			switch {
+			case diagLineRe.MatchString(l):
+				ok = true
+			case pctLineRe.MatchString(l) && strings.Count(l, ":::") == 2:
+				ok = true
+			case pctLineRe.MatchString(l) && strings.Count(l, ":::") == 1:
+				// class list offered for a constant receiver: %Name:::Name
+				parts := strings.SplitN(l[1:], ":::", 2)
+				ok = parts[0] == parts[1] && parts[0] != ""
+			}
 		case "--define":
 			switch {
 			case diagLineRe.MatchString(l):
@@ -277,16 +286,16 @@ func judgeRobust(c *CheckCtx, s *Slot, rc *robustCase, want string, forceBB bool
 		if an == anNone {
 			c.Event("clean_inprocess", 1)
 			if ip.Stdout != "" {
-				c.Nontrivial(mode + "\x00" + e.Files[targetFile])
+				c.Nontrivial(strings.Join(e.Argv, " ") + "\x00" + e.Files[targetFile])
 			}
 			return nil
 		}
 		c.Event("candidate_"+an, 1)
-		if an == anHang && want != "C02" {
+		if an == anHang && want == "C01" {
 			c.Event("hang_left_to_C02", 1)
 			return nil
 		}
-		if an == anHang && want == "C02" {
+		if an == anHang {
 			// confirm at most two candidates per spinning site on the black-box binary
 			sig := inprocHangSig(ip)
 			if !c.firstFew("hangsig:"+sig, 2) {
@@ -311,7 +320,7 @@ func judgeRobust(c *CheckCtx, s *Slot, rc *robustCase, want string, forceBB bool
 	if forceBB && ban == anNone {
 		c.Event("clean_blackbox", 1)
 		if bb.Stdout != "" {
-			c.Nontrivial(mode + "\x00" + e.Files[targetFile])
+			c.Nontrivial(strings.Join(e.Argv, " ") + "\x00" + e.Files[targetFile])
 		}
 		return nil
 	}
@@ -319,7 +328,7 @@ func judgeRobust(c *CheckCtx, s *Slot, rc *robustCase, want string, forceBB bool
 		c.Event("driver_divergence_or_finite", 1)
 		return nil
 	}
-	c.Nontrivial(mode + "\x00" + e.Files[targetFile])
+	c.Nontrivial(strings.Join(e.Argv, " ") + "\x00" + e.Files[targetFile])
 	caseJSON := mustJSON(&robustCase{Exec: e.forReplay(), Family: rc.Family})
 	switch ban {
 	case anCrash:
@@ -346,7 +355,7 @@ func judgeRobust(c *CheckCtx, s *Slot, rc *robustCase, want string, forceBB bool
 			What:     fmt.Sprintf("ti %s prints a line that is not a well-formed record: %q (family %s)", strings.Join(e.Argv, " "), bad, rc.Family),
 			Observed: tail(bb.Stdout, 3000)}
 	case anHang:
-		if want != "C02" {
+		if want == "C01" {
 			c.Event("other_property_hang", 1)
 			return nil
 		}
@@ -354,8 +363,10 @@ func judgeRobust(c *CheckCtx, s *Slot, rc *robustCase, want string, forceBB bool
 		if ip == nil {
 			ip = s.InProc().Run(e)
 		}
-		logical := ip.Budget != "" || ip.Died
+		logical := ip.Budget != "" || (ip.Died && !ip.Watchdog)
 		if !logical && !c.Eng.B.Degraded {
+			// no logical evidence (slow machine, or a finite but expensive analysis
+			// that only the harness wall clock stopped): never a verdict
 			c.Event("inconclusive_slow", 1)
 			return nil
 		}
